@@ -8,7 +8,7 @@ from . import c03
 PID = "C16"
 LEVEL = "other"
 CRATES = ["rlib_treap"]
-RELEASE = False
+RELEASE = True
 WORKSPACE_IN_THOROUGH = True  # H3 (who writes the pub priority field) is a whole-workspace rule
 ARMED = True
 ENGINES = ["E1", "E3", "E4a", "E6"]
@@ -16,7 +16,8 @@ TECHNIQUE = "term-flow abstract interpretation: entailment of priority order at 
 LEVEL_TEXT = (
     "Heap order is maintained by construction on every path (the node returned as root by merge has the smaller-or-equal "
     "priority by the path's own branch facts, in the same direction in both branches; splits return the root itself and only "
-    "re-attach parts of its former subtree), priorities come from a draw of the rlib_rand generator and nothing else writes "
+    "re-attach parts of its former subtree; any other function linking a foreign tree below a node compares the two priorities "
+    "in the same direction first), priorities come from a draw of the rlib_rand generator and nothing else writes "
     "them, and each draw advances persistent generator state. The probabilistic height bound 5*log2(n+1)+20 is not decided."
 )
 LEVEL_NOTE = "trusted: rustc MIR, exporter, std axioms (Option, Cell get/set, thread_local!); TreapNode fields are public, writes from outside the workspace are outside the analysed program"
@@ -27,7 +28,10 @@ EXPLANATION = (
     "(shared with C03 T4 assembly). H3: the priority field is written only by the TreapNode aggregate in TreapNode::new, with the "
     "result of a function whose call-graph slice reaches the rlib_rand generator's next_raw; no other store to the field in the "
     "exported workspace; the value handed out keeps at least as many raw generator bits as the priority type holds (added after seeded "
-    "change C16-a: `>> 53` left 11 bits). H4: the draw is Cell::get -> next_raw(&mut local) -> Cell::set(local) on the same thread-local cell on "
+    "change C16-a: `>> 53` left 11 bits). H5 (added after seeded change C16-e: a single-pass insert comparing priorities the max-heap way): in every "
+    "function of the exported program that stores into a node's left/right link, a stored value built from a tree other than "
+    "the node's own former subtree (another parameter, a fresh node) needs priority(node) <= priority(that tree's root) entailed "
+    "by the path's facts, in merge's direction, unless the facts say that tree is empty. H4: the draw is Cell::get -> next_raw(&mut local) -> Cell::set(local) on the same thread-local cell on "
     "every path (or next_raw applied directly to persistent state), and the returned priority derives from next_raw's result. "
     "NOT decided: the height bound (a probabilistic statement about the generator's output)."
 )
@@ -42,6 +46,8 @@ FIXTURES = [
     ("c16_bad_no_writeback", "bad", ["H4"]),
     ("c16_bad_merge_left_always", "bad", ["H1"]),
     ("c16_bad_fresh_rng_per_node", "bad", ["H4"]),
+    ("c16_bad_insert_max_heap", "bad", ["H5"]),
+    ("c16_good_insert_single_pass", "good", []),
 ]
 
 
@@ -126,6 +132,9 @@ def check(col, prog, tier, profile, fixture=None):
             else:
                 col.violation("H2", key, sb.loc(e.bb), "split does not return the root itself with only parts of its own former subtree attached: a descendant can end up above an ancestor")
 
+    # ---- H5: every other function that links nodes
+    rule_h5(col, prog, crate, R, dirs, only_crate=bool(fixture))
+
     # ---- H3 provenance
     gens = _provenance(col, prog, crate, R)
 
@@ -133,6 +142,133 @@ def check(col, prog, tier, profile, fixture=None):
 
     # ---- H4
     rule_h4(col, prog, "H4", crate=crate, draw_fns=gens, sole_writer=True)
+
+
+def _link_store_blocks(b):
+    """basic blocks of b with a MIR store into a TreapNode child link (field named left/right of node type)"""
+    out = set()
+    for bb, idx, s in b.statements():
+        if s["k"] != "assign":
+            continue
+        p = s["place"]["p"]
+        if p and p[-1][0] == "field" and p[-1][2] in ("left", "right") and "TreapNode<" in str(p[-1][3]):
+            out.add(bb)
+    return out
+
+
+def _origins(t, R):
+    """tree origins a term is built from: node-typed parameters and fresh nodes (calls of TreapNode::new)"""
+    out = set()
+
+    def walk(x):
+        if not isinstance(x, tuple) or not x:
+            return
+        if not isinstance(x[0], str):
+            for y in x:
+                walk(y)
+            return
+        if x[0] in ("mem", "after", "mphi", "m0"):
+            return
+        if x[0] == "param":
+            out.add(("param", x[1]))
+            return
+        if x[0] == "call" and x[1] == R.new.path:
+            out.add(x)
+            return
+        for y in x[1:]:
+            walk(y)
+
+    walk(t)
+    return out
+
+
+def rule_h5(col, prog, crate, R, dirs, only_crate=False):
+    """H5: a store into a node's child link outside the re-attachment of the node's own former subtree needs
+    the path's facts to order priority(node) against priority(root of the foreign tree) in merge's direction"""
+    fk = util.fkey
+    col.rule("H5", "every child-link store of a foreign tree is guarded by a priority comparison in merge's direction", floor=6)
+    want = "Ge" if dirs == {"max"} else "Le"
+    helper_keys = {h.key for h in R.helpers}
+    from ..absint import strip_mem
+
+    for c in ([crate] if only_crate else prog.crates.values()):
+        for b in c.bodies:
+            if b.key in helper_keys:
+                continue  # judged inlined into their callers
+            blocks = {None: (b, _link_store_blocks(b))}
+            if c is crate:
+                for h in util.helper_callees(crate, b, R.helpers):
+                    hb = _link_store_blocks(h)
+                    if hb:
+                        blocks[h.path] = (h, hb)
+            if not any(v[1] for v in blocks.values()):
+                continue
+            I = R.A(b) if c is crate else util.analyse(b)
+            tree_params = {i for i in range(1, b.arg_count + 1) if "TreapNode<" in str(b.locals[i]["ty"])}
+            seen = set()
+            for st in I.all_end_states() if hasattr(I, "all_end_states") else I.final_states:
+                z = None
+                for ev in st.event_list():
+                    if ev.kind != "store":
+                        continue
+                    where = blocks.get((ev.extra or {}).get("in"))
+                    if where is None or ev.bb not in where[1]:
+                        continue
+                    loc = where[0].loc(ev.bb)
+                    cf = c03.child_field_of(ev.place, R)
+                    if not cf:
+                        continue
+                    X, fld = cf
+                    v = ev.val
+                    if v[0] == "agg" and isinstance(v[1], tuple) and v[1][0] == "adt" and v[1][3] == "None":
+                        continue
+                    own = {o for o in _origins(X, R) if o[0] != "param" or o[1] in tree_params}
+                    src = {o for o in _origins(v, R) if o[0] != "param" or o[1] in tree_params}
+                    foreign = src - own
+                    side = "left" if fld == R.LEFT else "right"
+                    key = "%s|link-%s|%s" % (fk(b), side, "own" if not foreign else "foreign")
+                    if not foreign:
+                        if key not in seen:
+                            seen.add(key)
+                            col.ok("H5", loc, key, "re-attaches (parts of) the node's own former subtree")
+                        continue
+                    # priorities read on the path
+                    xp = [s_ for f in st.facts for s_ in subterms(f[1]) if s_[0] == "load" and s_[2][0] == "field" and s_[2][2] == R.PRIO and strip_mem(s_[2][1]) == strip_mem(X)]
+                    bad = None
+                    if z is None:
+                        z = zones.zone_of(st.facts, I.tys)
+                    for o in sorted(foreign, key=str):
+                        if o[0] == "param" and _param_none(st.facts, o[1]):
+                            continue
+                        op = [s_ for f in st.facts for s_ in subterms(f[1]) if s_[0] == "load" and s_[2][0] == "field" and s_[2][2] == R.PRIO and o in _origins(s_[2], R) and not _below_child(s_[2][1], R) and strip_mem(s_[2][1]) != strip_mem(X)]
+                        if not xp or not op:
+                            bad = "no comparison of the node's priority with the priority of the root of the tree linked below it (%s) on this path" % tstr(o)[:60]
+                            break
+                        if not any(z.entails(want, a, b_) for a in xp for b_ in op):
+                            bad = "the path's facts do not give priority(node) %s priority(root of %s), the order merge maintains" % ("<=" if want == "Le" else ">=", tstr(o)[:60])
+                            break
+                    if bad:
+                        col.violation("H5", key, loc, "%s stores a foreign tree into a node's %s link: %s — heap order is not maintained by construction" % (b.path, side, bad))
+                    elif key not in seen:
+                        seen.add(key)
+                        col.ok("H5", loc, key, "priority(node) %s priority(foreign root) entailed on the path" % ("<=" if want == "Le" else ">="))
+
+
+def _below_child(pl, R):
+    """the node place lies below a child link of another node (not the root of its tree)"""
+    for s_ in subterms(pl):
+        if isinstance(s_, tuple) and s_ and s_[0] == "field" and s_[2] in (R.LEFT, R.RIGHT):
+            return True
+    return False
+
+
+def _param_none(facts, i):
+    for f in facts:
+        for s_ in subterms(f[1]):
+            if s_[0] == "discr" and s_[1][0] == "param" and s_[1][1] == i:
+                if c03._known_none(facts, s_[1]):
+                    return True
+    return False
 
 
 def _priority_writers(prog, R):
